@@ -45,10 +45,18 @@ OK == <<"ok", "">>
    (when its own Ethereum index is > 0). *)
 DevD19 == "RpcReceipt/synthetic-cumulativeGasUsed-counts-refused-txs"
 
-M0 == [chain |-> <<>>, full |-> EmptyKv, kv |-> EmptyKv, pending |-> <<>>, up |-> FALSE, cur |-> 0, start |-> 0, tip |-> 0,
-       skip |-> {}, mode |-> "none", done |-> {}, expect |-> EmptyKv, devSched |-> FALSE, sched |-> "none"]
+(* Known deviation D20 (server/indexer_service.go OnStart): when the node has pruned blocks the index has not
+   reached yet (last indexed block < earliest available block) the service continues *after* the earliest
+   available block instead of *with* it: that block is never indexed. *)
+DevD20 == "Converges/pruned-restart-skips-earliest-available-block"
 
-TraceInit == l = 1 /\ M = M0 /\ err = <<>> /\ seen = <<>> /\ cnt = NoFn /\ used = {}
+M0 == [chain |-> <<>>, full |-> EmptyKv, kv |-> EmptyKv, pending |-> <<>>, up |-> FALSE, cur |-> 0, start |-> 0, tip |-> 0,
+       skip |-> {}, pruned |-> {}, skip20 |-> {}, mode |-> "none", done |-> {}, expect |-> EmptyKv, devSched |-> FALSE, sched |-> "none", viewDev |-> FALSE]
+
+(* the design module's own variables are not used here (the model state is the record M) *)
+TraceInit == /\ l = 1 /\ M = M0 /\ err = <<>> /\ seen = <<>> /\ cnt = NoFn /\ used = {}
+             /\ chain = <<>> /\ start = -1 /\ kv = EmptyKv /\ pending = <<>> /\ up = FALSE /\ cur = 0 /\ pos = 0
+             /\ next = 0 /\ crashes = 0 /\ skipped = {}
 
 Ev == Trace[l]
 Bump(f, k) == PutK(f, k, (IF k \in DOMAIN f THEN f[k] ELSE 0) + 1)
@@ -104,7 +112,12 @@ DoRestart ==
          c == IF Ev.last # last THEN <<"ResumeExact", "LastIndexedBlock-differs-from-last-block-in-index">> ELSE OK
          (* what D18 does: an empty index on a restart = start from the current tip *)
          sk == IF Ev.run > 0 /\ last = -1 /\ M.mode = "service" THEN M.skip \cup ((M.start + 1)..Ev.tip) ELSE M.skip
-     IN Settle(c, [M EXCEPT !.up = TRUE, !.tip = Ev.tip, !.skip = sk, !.pending = <<>>, !.cur = 0])
+         (* blocks the node has pruned before the index reached them cannot be indexed (legitimately missing);
+            the earliest available one can - D20 skips it *)
+         gap == M.mode = "service" /\ last # -1 /\ last < Ev.earliest
+         pr == IF gap THEN M.pruned \cup ((last + 1)..(Ev.earliest - 1)) ELSE M.pruned
+         s20 == IF gap THEN M.skip20 \cup {Ev.earliest} ELSE M.skip20
+     IN Settle(c, [M EXCEPT !.up = TRUE, !.tip = Ev.tip, !.skip = sk, !.pruned = pr, !.skip20 = s20, !.pending = <<>>, !.cur = 0])
   /\ UNCHANGED <<cnt, used>>
 
 DoTip ==
@@ -152,19 +165,22 @@ DoCaught ==
 DoKv ==
   /\ Ev.ev = "Kv"
   /\ LET d == KvOfDump(Ev.dump)
-         want == Index(M.chain, M.start, M.tip)
-         wantDev == IndexSkip(M.chain, M.start, M.tip, M.skip)
+         want == IndexSkip(M.chain, M.start, M.tip, M.pruned)
+         w18 == IndexSkip(M.chain, M.start, M.tip, M.pruned \cup M.skip)
+         w20 == IndexSkip(M.chain, M.start, M.tip, M.pruned \cup M.skip20)
+         wantDev == IndexSkip(M.chain, M.start, M.tip, M.pruned \cup (IF DevD18 \in Known THEN M.skip ELSE {}) \cup (IF DevD20 \in Known THEN M.skip20 ELSE {}))
          caught == Ev.when = "caught-up"
-         devOk == caught /\ d # want /\ d = wantDev /\ ~HasForeign(Ev.dump) /\ DevD18 \in Known
+         devOk == caught /\ d # want /\ d = wantDev /\ ~HasForeign(Ev.dump)
          c == IF d # M.kv THEN <<"Binding", "database-dump-differs-from-the-model-database">>
               ELSE IF ~caught THEN OK
               ELSE IF HasForeign(Ev.dump) THEN <<"Converges", "index-holds-keys-that-are-no-function-of-the-chain">>
               ELSE IF d = want THEN OK
               ELSE IF devOk THEN OK
-              ELSE IF d = wantDev THEN <<"Converges", "empty-index-restart-skips-to-latest">>
+              ELSE IF d = w18 THEN <<"Converges", "empty-index-restart-skips-to-latest">>
+              ELSE IF d = w20 THEN <<"Converges", "pruned-restart-skips-earliest-available-block">>
               ELSE <<"Converges", "index-after-catch-up-differs-from-Index(chain)">>
      IN /\ Settle(c, [M EXCEPT !.expect = IF devOk THEN wantDev ELSE want, !.devSched = devOk])
-        /\ used' = IF devOk THEN used \cup {DevD18} ELSE used
+        /\ used' = IF devOk THEN used \cup (IF d # w20 \/ M.skip20 = {} THEN {DevD18} ELSE {}) \cup (IF d # w18 \/ M.skip = {} THEN {DevD20} ELSE {}) ELSE used
         /\ cnt' = IF caught THEN Bump(cnt, IF M.mode = "service" THEN (IF M.skip # {} \/ M.done # {} THEN "caught.service" ELSE "caught.service-empty") ELSE "caught.direct") ELSE cnt
 
 DoLookup ==
@@ -187,7 +203,7 @@ DoCompare ==
   /\ Ev.ev = "Compare"
   /\ LET c == IF Ev.sameAsUninterrupted \/ M.devSched THEN OK ELSE <<"Converges", "final-index-differs-from-uninterrupted-run">>
      IN Settle(c, M)
-  /\ cnt' = Bump(cnt, "schedules")
+  /\ cnt' = Bump(Bump(cnt, "schedules"), IF M.devSched THEN "schedules.dev" ELSE "schedules.clean")
   /\ UNCHANGED used
 
 (***************************************************************************)
@@ -306,18 +322,20 @@ RpcUsesD19 ==
 
 DoRpc ==
   /\ Ev.ev = "Rpc"
-  /\ Settle(RpcCheck, M)
+  /\ Settle(RpcCheck, [M EXCEPT !.viewDev = IF Ev.m = "filterRange" THEN FALSE ELSE (@ \/ RpcUsesD19)])
   /\ used' = IF RpcUsesD19 THEN used \cup {DevD19} ELSE used
-  /\ cnt' = Bump(cnt, "rpc." \o Ev.m \o (IF Ev.indexed THEN "" ELSE ".fallback") \o "." \o Ev.res.k)
+  /\ LET c1 == Bump(cnt, "rpc." \o Ev.m \o (IF Ev.indexed THEN "" ELSE ".fallback") \o "." \o Ev.res.k)
+     IN cnt' = IF Ev.m = "filterRange" THEN Bump(c1, IF M.viewDev THEN "views.dev" ELSE "views.clean") ELSE c1
 
 TraceNext ==
   /\ l <= Len(Trace)
   /\ err = <<>>
   /\ l' = l + 1
+  /\ UNCHANGED vars
   /\ (DoChain \/ DoSched \/ DoRestart \/ DoTip \/ DoIndexBlock \/ DoBeginBatch \/ DoPhysWrite \/ DoFlush \/ DoCrash
       \/ DoCaught \/ DoKv \/ DoLookup \/ DoCompare \/ DoRpc)
 
-TraceSpec == TraceInit /\ [][TraceNext]_tvars
+TraceSpec == TraceInit /\ [][TraceNext]_<<tvars, vars>>
 
 (* printed once, when the last line has been consumed *)
 Coverage == (l = Len(Trace) + 1 /\ err = <<>>) =>
